@@ -169,7 +169,7 @@ impl Prop for C01 {
         gen::hist(tier.pick(24, 60), &[0, 0, 1, 2])
     }
     fn random_cases(&self, tier: Tier) -> u32 {
-        tier.pick(40_000, 1_000_000)
+        tier.pick(200_000, 2_000_000)
     }
     fn check(&self, case: &HistCase) -> Outcome {
         let mut out = Outcome::new();
